@@ -76,7 +76,7 @@ CLAIMS = {
    note="json.dumps/json.loads composed = identity on the JSON value is a premise for the text form (exercised through the real text).",
    technique="Coq proof (schema predicate, round trip via base64 theorem) + differential wire-format check", ref="3/C16"),
  "C17": dict(
-   text="Theorems (lia, clock in ms with truncation written into the statement): SafetyNet timestamp accepted iff within [now*1000-10000, now*1000+10000]; hence accepted only within (T-11000, T+10000] and always within [T-10000, T+9000]; chain validation is handed the clock of the current call. Correspondence: ms-dense boundaries, second-dense certificate windows for leaf/intermediate/root, moving-clock histories, real-clock run (thorough).",
+   text="Theorems (lia, clock in ms with truncation written into the statement): SafetyNet timestamp accepted iff within [now*1000-10000, now*1000+10000]; hence accepted only within (T-11000, T+10000] and always within [T-10000, T+9000]; over time: accepted at clock n implies refused at every clock >= n+21, expiry is permanent, the accepting clocks of one timestamp form a single interval of at most 20 s; chain validation is handed the clock of the current call. Correspondence: ms-dense boundaries, second-dense certificate windows for leaf/intermediate/root, moving-clock histories, real-clock run (thorough).",
    note="PARTIAL: OpenSSL's reading of the clock is an oracle (tested).",
    technique="Coq proof (linear arithmetic over Z) + differential controlled-clock check", ref="3/C17"),
  "C18": dict(
